@@ -31,6 +31,19 @@ PLAN = {
             {"run": "TestC01_CLI", "checks": 3000, "shards": 2, "timeout": 3000},
         ],
     },
+    "C02": {
+        "wtf": True,
+        "quick": [
+            {"run": "TestC02_Repeat", "checks": 3000},
+            {"run": "TestC02_Shipped", "checks": 40},
+            {"run": "TestC02_Procs", "checks": 15},
+        ],
+        "thorough": [
+            {"run": "TestC02_Repeat", "checks": 100000, "shards": 12, "timeout": 3000},
+            {"run": "TestC02_Shipped", "checks": 400, "shards": 2, "timeout": 3000},
+            {"run": "TestC02_Procs", "checks": 400, "shards": 2, "timeout": 3000},
+        ],
+    },
     "C12": {
         "quick": [
             {"run": "TestC12_Model", "checks": 4000},
